@@ -352,7 +352,7 @@ func checkKeys(c *eng.Ctx, cf cfg, btp bootstrapping.Parameters, skN1, skN2 *rlw
 	}
 	if !math.IsInf(minWrong, 1) {
 		// evidence of the separation: smallest log2(max residue) seen under a wrong secret
-		c.Max("max_neg_log2_of_smallest_residue_under_wrong_secret", int64(-minWrong))
+		c.Max("max_64_minus_log2_of_smallest_residue_under_a_wrong_secret", int64(64-minWrong))
 	}
 
 	// ---- the ephemeral secret is recoverable from EvkSparseToDense by whoever holds skN2 (it is the
